@@ -486,12 +486,10 @@ impl<C: Suite> Consume<Ctx<C>> for SecretKey<C> {
             }
         }
         let _ = self.proof_of_possession().map(|p| p.verify(pk));
-        let _ = self.split_with_rng(2, 3, rand_chacha::ChaCha20Rng::from_seed([1u8; 32]));
         let _ = Option::<Vec<u8>>::from(x.sc.decrypt(self));
         let _ = self.sign_decryption_key::<&[u8]>(&x.sc).decrypt(&x.sc);
         let _ = x.eg.decrypt(self);
         let _ = x.egp.verify_and_decrypt(self);
-        let _ = x.pk.encrypt_key_el_gamal(self);
         let _ = self.to_be_bytes();
         let _ = self.to_le_bytes();
     }
@@ -520,13 +518,6 @@ impl<C: Suite> Consume<Ctx<C>> for PublicKey<C> {
             let _ = s.verify(self, &x.msg);
         }
         let _ = x.sk.proof_of_possession().map(|p| p.verify(*self));
-        for s in SCHEMES3 {
-            let ct = self.sign_crypt(lib_scheme(s), &x.msg);
-            let _ = ct.is_valid();
-            let _ = self.encrypt_time_lock(lib_scheme(s), &x.msg, &x.id);
-        }
-        let _ = self.encrypt_key_el_gamal(&x.sk2);
-        let _ = self.encrypt_key_el_gamal_with_proof(&x.sk2).map(|p| p.verify(*self));
         let _ = x.egp.verify(*self);
         let _ = MultiPublicKey::<C>::from_public_keys([*self, x.pk]);
         let _ = AggregateSignature::<C>::from_signatures([x.sigs[0], x.sigs[0]]).map(|a| a.verify(&[(*self, x.msg.clone()), (x.pk, b"other".to_vec())]));
